@@ -389,7 +389,7 @@ func (p *Path) callSSA(caller *Frame, callpos token.Pos, fn *ssa.Function, args 
 			}
 		}
 		if fn.Blocks == nil {
-			panic(abort("unsupported: no body for " + name))
+			panic(abort("unsupported: no body for " + name + " called from " + callChain(caller)))
 		}
 	}
 	if fn.TypeParams().Len() > 0 && len(fn.TypeArgs()) == 0 {
@@ -520,4 +520,14 @@ func shortStack() string {
 		sb.WriteString(" < ")
 	}
 	return sb.String()
+}
+
+func callChain(fr *Frame) string {
+	var names []string
+	for f := fr; f != nil && len(names) < 8; f = f.caller {
+		if f.fn != nil {
+			names = append(names, f.fn.String())
+		}
+	}
+	return strings.Join(names, " < ")
 }
